@@ -58,6 +58,8 @@ TCEnd == /\ Is("c.end") /\ UNCHANGED <<owner, state, ivs, uses>>
 \* a Close whose final flush is held up: it returns only after its workers have stopped (it does not give the directory away
 \* while they can still write to it)
 TSlowClose == Is("slowclose") /\ UNCHANGED <<owner, state, ivs, uses>> /\ ~Ev.early /\ ~Ev.secondOpen /\ Ev.dirSame
+              \* a second Close arriving meanwhile fails (or waits) and does not take the lock away: the directory stays owned
+              /\ ~Ev.c2ok /\ Ev.c2lock /\ ~Ev.c2open
 Next == TSlowClose \/ TReset \/ TOpen \/ TClose \/ TUse \/ TProc \/ TCOpenRet \/ TCCloseRet \/ TCUseRet \/ TCEnd
 Spec == Init /\ [][Next]_<<l, owner, state, ivs, uses>>
 Accepted == LET d == TLCGet("stats").diameter IN PrintT("CONSUMED " \o ToString(d - 1))
